@@ -182,6 +182,34 @@ func main() {
 			}
 		}
 	}
+	// yield points inside the ToxicCollection methods, in front of the chain changes (under the
+	// collection's lock in the unchanged code: a sleep there only makes a request hold its lock
+	// a little longer, which is what widens the windows of requests that do NOT hold it)
+	{
+		src := filepath.Join(*repo, "toxic_collection.go")
+		if b, err := os.ReadFile(src); err == nil {
+			var out []string
+			n := 0
+			for i, line := range strings.Split(string(b), "\n") {
+				t := strings.TrimSpace(line)
+				if strings.HasPrefix(t, "c.chainAddToxic(") || strings.HasPrefix(t, "c.chainUpdateToxic(") || strings.HasPrefix(t, "c.chainRemoveToxic(ctx, toxic)") {
+					ind := line[:len(line)-len(strings.TrimLeft(line, "\t "))]
+					out = append(out, fmt.Sprintf("%sVerifYield(\"toxic_collection.go:%d\")", ind, i+1))
+					n++
+				}
+				out = append(out, line)
+			}
+			if n > 0 {
+				dst := filepath.Join(*dir, "toxic_collection.go")
+				if err := os.WriteFile(dst, []byte(strings.Join(out, "\n")), 0o644); err != nil {
+					fmt.Fprintln(os.Stderr, err)
+					os.Exit(1)
+				}
+				replace[src] = dst
+				sites = append(sites, fmt.Sprintf("toxic_collection.go: %d yield points", n))
+			}
+		}
+	}
 	// a file that exists only in the overlay: read-only accessors for the harness (package
 	// toxiproxy, build tag verif); nothing is written into /repo
 	shim := filepath.Join(*dir, "verif_export.go")
